@@ -63,6 +63,8 @@ type HookBehaviour struct {
 	Gate    string `json:"gate,omitempty"` // park at gate "probe:<gate>" until released
 	SleepMs int    `json:"sleep_ms,omitempty"`
 	Text    string `json:"text,omitempty"` // the error text of a failing hook (default: names the hook)
+	// FailTimes > 0: only the first FailTimes invocations of the hook in the scenario fail
+	FailTimes int `json:"fail_times,omitempty"`
 }
 
 type Step struct {
@@ -103,6 +105,7 @@ type Runner struct {
 
 	mu         sync.Mutex
 	ungated    map[string]bool // gates removed by the scenario: late arrivals pass
+	hookN    map[string]int // invocations of each probe hook in the current scenario
 	scn        *Scenario
 	envAlias   map[string]string // real env id -> alias
 	aliasEnv   map[string]string // alias -> real id
@@ -434,7 +437,17 @@ func (r *Runner) pluginHandler(call *callable.Call, fn string, arg string) strin
 		}
 	}
 	res := ""
-	if b.Outcome == "fail" {
+	failNow := b.Outcome == "fail"
+	if failNow && b.FailTimes > 0 {
+		r.mu.Lock()
+		if r.hookN == nil {
+			r.hookN = map[string]int{}
+		}
+		r.hookN[arg]++
+		failNow = r.hookN[arg] <= b.FailTimes
+		r.mu.Unlock()
+	}
+	if failNow {
 		res = "scripted failure of hook " + arg
 		if b.Text != "" {
 			res = b.Text
@@ -901,6 +914,7 @@ func (r *Runner) Run(s *Scenario) {
 	r.calls = map[string]chan struct{}{}
 	r.matchers = map[string]map[string]string{}
 	r.ungated = map[string]bool{}
+	r.hookN = map[string]int{}
 	r.mu.Unlock()
 	r.Master.SetAgents(s.Agents)
 	var model interface{}
